@@ -26,6 +26,7 @@ pub struct Emitter<'a> {
     items: Vec<String>,
     impls: Vec<(String, String, Vec<FnOut>)>, // (key, header, fns)
     free: Vec<FnOut>,
+    pub vacuity: bool,
 }
 
 fn json_str(s: &str) -> String {
@@ -80,7 +81,7 @@ pub fn filter_variant_lines(text: &str, variant: &str) -> String {
 
 impl<'a> Emitter<'a> {
     pub fn new(u: &'a Unit, variant: &str, verif: &str) -> Self {
-        Emitter { u, variant: variant.to_string(), verif: verif.to_string(), items: vec![], impls: vec![], free: vec![] }
+        Emitter { u, variant: variant.to_string(), verif: verif.to_string(), items: vec![], impls: vec![], free: vec![], vacuity: false }
     }
 
     pub fn add_struct(&mut self, st: &ItemStruct, ss: &StructSpec) {
@@ -325,6 +326,9 @@ impl<'a> Emitter<'a> {
                 self.render_clauses("ensures", &f.spec.ensures, &format!("{}    ", sig_indent), &mut out, &f.poolstr);
                 out.push(format!("{}{{", sig_indent));
                 self.render_ghost(&f.spec.entry, &indent, &mut out, &f.poolstr);
+                if self.vacuity {
+                    out.push(format!("{}if vx_nondet() {{ assert(false); }} // [vac {}.entry]", indent, f.spec.path));
+                }
                 continue;
             }
             if let Some(rest) = t.strip_prefix("__vx_ghost!(") {
@@ -335,6 +339,15 @@ impl<'a> Emitter<'a> {
                 if let Some(gs) = map.get(key) {
                     out.push(format!("{}// @ghost {} {}", indent, when, key));
                     self.render_ghost(gs, &indent, &mut out, &f.poolstr);
+                }
+                continue;
+            }
+            if let Some(rest) = t.strip_prefix("__vx_pt!(") {
+                let key = rest.trim_end_matches(");").trim_matches('"').to_string();
+                let f = cur_fn.expect("pt marker outside fn");
+                out.push(format!("{}{}.interfere(); // [inv@{}.{}]", indent, f.poolstr, f.spec.path, key));
+                if self.vacuity {
+                    out.push(format!("{}if vx_nondet() {{ assert(false); }} // [vac {}.{}]", indent, f.spec.path, key));
                 }
                 continue;
             }
